@@ -135,6 +135,7 @@ write_batch = Contract(
     exc_ensures={"*": INV + [("state-unchanged", "self.state == old(self.state)")]},
     ensures=INV + [("transition", T_IO)],
     loops={"for r in registers": LoopSpec(invariant=[], frame={}),
+           "for r in registers#1": LoopSpec(invariant=[], frame=DICT("self.pending_writes")),
            "for value, r in zip(values, registers)": LoopSpec(invariant=[], frame=DICT("self.pending_writes")),
            "for value, r in zip(values, registers)#1": LoopSpec(invariant=[], frame=DICT("self.pending_writes"))})
 
